@@ -315,3 +315,179 @@ Section Full.
     - now apply (wt_data_is_adjoint m K c d s).
   Qed.
 End Full.
+
+(* ================================================================== 6. the w-tilde data vector for ANY ordered list of objects *)
+(* a sequence of slice assignments v[off_k : off_k + params_k] = Wf k, k running over a list of object indices *)
+Lemma fold_slices objs (Wf : nat -> list R) : forall ks (v : list R), length v = tp objs ->
+  (forall k, In k ks -> (k < length objs)%nat /\ length (Wf k) = params (ob objs k)) ->
+  length (fold_left (fun dv k => @set_slice ROps dv (off objs k) (Wf k)) ks v) = tp objs /\
+  forall i la, (i < length objs)%nat -> (la < params (ob objs i))%nat ->
+    nth (off objs i + la) (fold_left (fun dv k => @set_slice ROps dv (off objs k) (Wf k)) ks v) 0 =
+    if existsb (Nat.eqb i) ks then nth la (Wf i) 0 else nth (off objs i + la) v 0.
+Proof.
+  induction ks as [|k ks IH]; intros v Hv Hks; cbn [fold_left existsb].
+  - split; auto.
+  - destruct (Hks k (or_introl eq_refl)) as [Hk Hlen].
+    pose proof (off_bound objs k Hk) as Hb.
+    assert (Hfit : (off objs k + length (Wf k) <= length v)%nat) by (rewrite Hlen, Hv; exact Hb).
+    destruct (IH (@set_slice ROps v (off objs k) (Wf k))) as [L C].
+    + rewrite set_slice_length; auto.
+    + intros k' Hk'. apply Hks. now right.
+    + split; [exact L|]. intros i la Hi Hla. rewrite (C i la Hi Hla).
+      destruct (existsb (Nat.eqb i) ks) eqn:X.
+      * now rewrite orb_true_r.
+      * rewrite orb_false_r. rewrite nth_set_slice by exact Hfit. rewrite Hlen.
+        destruct (Nat.eqb i k) eqn:E.
+        -- apply Nat.eqb_eq in E. subst k.
+           assert (A : Nat.leb (off objs i) (off objs i + la) && Nat.ltb (off objs i + la) (off objs i + params (ob objs i)) = true).
+           { apply andb_true_iff. split; [apply Nat.leb_le; lia | apply Nat.ltb_lt; lia]. }
+           rewrite A. f_equal. lia.
+        -- destruct (Nat.leb (off objs k) (off objs i + la) && Nat.ltb (off objs i + la) (off objs k + params (ob objs k))) eqn:A; [|reflexivity].
+           exfalso. apply andb_true_iff in A. destruct A as [A1 A2]. apply Nat.leb_le in A1. apply Nat.ltb_lt in A2.
+           apply Nat.eqb_neq in E. apply E. symmetry. apply (locate_range objs i k la (off objs i + la)%nat); auto.
+Qed.
+(* the same, in the form the model writes it: a fold over (object, range) pairs *)
+Lemma fold_slices_ent objs cls (g : @lobj ROps -> list R) (v : list R) : length v = tp objs ->
+  (forall k, (k < length objs)%nat -> cls (ob objs k) = true -> length (g (ob objs k)) = params (ob objs k)) ->
+  let v' := fold_left (fun dv (orr : @lobj ROps * (nat * nat)) => @set_slice ROps dv (fst (snd orr)) (g (fst orr)))
+                      (combine (filter cls objs) (@ranges_from ROps cls objs 0)) v in
+  length v' = tp objs /\
+  forall i la, (i < length objs)%nat -> (la < params (ob objs i))%nat ->
+    nth (off objs i + la) v' 0 = if cls (ob objs i) then nth la (g (ob objs i)) 0 else nth (off objs i + la) v 0.
+Proof.
+  intros Hv Hg. cbv zeta. rewrite entries_idx.
+  rewrite (fold_left_map (fun dv (orr : @lobj ROps * (nat * nat)) => @set_slice ROps dv (fst (snd orr)) (g (fst orr))) (ent objs)).
+  cbn [ent fst snd].
+  destruct (fold_slices objs (fun k => g (ob objs k)) (idxs cls objs) v Hv) as [L C].
+  - intros k Hk. apply idxs_In in Hk. destruct Hk as [Hk Hc]. split; auto.
+  - split; [exact L|]. intros i la Hi Hla. rewrite (C i la Hi Hla).
+    destruct (cls (ob objs i)) eqn:Ec.
+    + assert (X : existsb (Nat.eqb i) (idxs cls objs) = true).
+      { apply existsb_exists. exists i. split; [apply idxs_In; auto | apply Nat.eqb_refl]. }
+      now rewrite X.
+    + assert (X : existsb (Nat.eqb i) (idxs cls objs) = false).
+      { destruct (existsb (Nat.eqb i) (idxs cls objs)) eqn:X; [|reflexivity]. apply existsb_exists in X.
+        destruct X as [k [Hk E]]. apply Nat.eqb_eq in E. subst k. apply idxs_In in Hk. destruct Hk as [_ Hk]. congruence. }
+      now rewrite X.
+Qed.
+
+Lemma no_func_all_mappers objs : existsb (@is_func ROps) objs = false -> forallb (@is_mapper ROps) objs = true.
+Proof.
+  induction objs as [|o t IH]; cbn; auto. intros H. apply orb_false_iff in H. destruct H as [H1 H2].
+  unfold is_func in H1. apply negb_false_iff in H1. rewrite H1. cbn. auto.
+Qed.
+
+Section FullData.
+  Variables (m : mask) (K : RK) (c : @convolver ROps).
+  Hypothesis Hrect : rectb m = true.
+  Hypothesis Hc : @convolver_init ROps m K = Ok c.
+  Notation n := (length (unmasked m)).
+
+  (* InversionImagingWTilde.data_vector = InversionImagingMapping.data_vector, entry by entry, for every ordered list of mappers and
+     function lists (all three branches: _data_vector_x1_mapper, _data_vector_multi_mapper, _data_vector_func_list_and_mapper) *)
+  Theorem D_wt_eq_D_mapping_full objs (d s : list R) a :
+    (0 < n)%nat -> length d = n -> length s = n ->
+    (forall i, (i < n)%nat -> nth i s 0 <> 0) -> (forall o, In o objs -> wf_obj c n o) -> (a < tp objs)%nat ->
+    nth a (@D_wt ROps c m K objs d s) 0 = nth a (@D_mapping ROps c objs d s) 0.
+  Proof.
+    intros Hn Hd Hs Hnz Hwf Ha.
+    destruct (existsb (@is_func ROps) objs) eqn:Ef.
+    2:{ apply (D_wt_eq_D_mapping_mappers_full m K c Hrect Hc); auto. now apply no_func_all_mappers. }
+    destruct (locate_exists objs a Ha) as (i & la & Hi & Hla & ->).
+    assert (Hsh : forall o, In o objs -> shape n (params o) (opmat c o)) by (intros o Ho; now destruct (Hwf o Ho) as (_ & H & _)).
+    assert (Hin : In (ob objs i) objs) by (unfold ob; now apply nth_In).
+    rewrite (D_mapping_blocks c objs d s n) by auto.
+    unfold D_wt. rewrite Ef.
+    set (wd := @wt_data ROps (@native ROps m d) (@native ROps m s) K (unmasked m)).
+    set (g1 := fun o : @lobj ROps => @dv_wtd ROps wd (enc_of o) (params o)).
+    set (g2 := fun o : @lobj ROps => @dv_blurred ROps (opmat c o) d s).
+    destruct (fold_slices_ent objs is_mapper g1 (@zeros ROps (total_params objs))) as [L1 C1].
+    { unfold zeros. now rewrite repeat_length, total_params_tp. }
+    { intros k _ _. unfold g1. apply dv_wtd_length. }
+    destruct (fold_slices_ent objs is_func g2
+                (fold_left (fun dv (orr : @lobj ROps * (nat * nat)) => @set_slice ROps dv (fst (snd orr)) (g1 (fst orr)))
+                           (combine (filter is_mapper objs) (@ranges_from ROps is_mapper objs 0)) (@zeros ROps (total_params objs))) L1) as [_ C2].
+    { intros k Hk _. unfold g2. rewrite dv_blurred_length. apply (ncols_shape _ n); auto. apply Hsh. unfold ob. now apply nth_In. }
+    cbv zeta in C1, C2. unfold g1, g2 in C1, C2. rewrite (C2 i la Hi Hla). clear C2. rfix. rewrite (C1 i la Hi Hla). clear C1.
+    pose proof (Hwf _ Hin) as W.
+    unfold is_func. destruct (ob objs i) as [e M P r|M ov P r] eqn:Eo; cbn [is_mapper negb].
+    - (* a mapper: written by the first fold, untouched by the second *)
+      cbn [is_mapper enc_of params]. cbn [params] in Hla.
+      pose proof W as W2. destruct W as (_ & _ & He & _).
+      unfold wd. etransitivity; [apply (wt_data_vector_block_full m K c Hrect Hc d s e P la); auto|].
+      apply sumR_map_ext. intros k Hk. apply in_seq in Hk.
+      rewrite (mapper_block_is_Bm c n e M P r k la W2 (init_frames_ok m K c Hrect Hc)) by (lia || assumption). reflexivity.
+    - (* a function list: dv_blurred of its own operated matrix *)
+      cbn [params] in Hla. destruct W as (_ & Hshape & _). cbn [params] in Hshape.
+      rewrite dv_blurred_spec by (rewrite (ncols_shape _ n P Hshape Hn); exact Hla).
+      destruct Hshape as [HL _]. rewrite HL. reflexivity.
+  Qed.
+End FullData.
+
+(* ================================================================== 7. mapped_reconstructed_data: the two formalisms give the same list *)
+Lemma slices_lengths : forall objs (r : list R) o rs, length r = tp objs -> In (o, rs) (combine objs (@slices ROps objs r)) ->
+  In o objs /\ length rs = params o.
+Proof.
+  induction objs as [|o0 t IH]; intros r o rs Hr Hin; [contradiction|].
+  cbn [slices combine] in Hin. rewrite tp_cons in Hr. destruct Hin as [E|Hin].
+  - inversion E; subst. split; [now left|]. rewrite firstn_length. rfix. lia.
+  - destruct (IH (skipn (params o0) r) o rs) as [H1 H2]; auto.
+    + rewrite skipn_length. rfix. lia.
+    + split; [now right | exact H2].
+Qed.
+Lemma mapped_via_matrix_length (B : @mat ROps) (r : list R) : length (@mapped_via_matrix ROps B r) = length B.
+Proof. unfold mapped_via_matrix. now rewrite map_length, seq_length. Qed.
+Lemma mapped_via_unique_length e (r : list R) : length (@mapped_via_unique ROps e r) = length (e_du e).
+Proof. unfold mapped_via_unique. now rewrite map_length, seq_length. Qed.
+Lemma no_blurring_length (c : @convolver ROps) (img : list R) : length (@convolve_no_blurring ROps c img) = length img.
+Proof. rewrite P3.no_blurring_as_convolve. apply P3.convolve_length. Qed.
+
+(* a mapper's term: convolution of M r (w-tilde class) = (convolved M) r (mapping class) *)
+Lemma mapped_mapper_term (c : @convolver ROps) n e M P reg (rs : list R) :
+  wf_obj c n (LMapper e M P reg) -> frames_ok c n -> length rs = P ->
+  @convolve_no_blurring ROps c (@mapped_via_unique ROps e rs) = @mapped_via_matrix ROps (@convolve_matrix ROps c M) rs.
+Proof.
+  intros W Hfr Hrs. pose proof W as (_ & _ & He & Hrep & _ & Hdu & HM & HP).
+  pose proof (shape_convolve_matrix c M) as [HLc _].
+  apply (P3.nth_ext_len _ _ 0).
+  - rewrite no_blurring_length, mapped_via_unique_length, mapped_via_matrix_length. rfix. lia.
+  - intros i Hi. rewrite no_blurring_length, mapped_via_unique_length, Hdu in Hi.
+    rewrite (convolve_no_blurring_is_Cop c _ n i) by (auto; rewrite mapped_via_unique_length; exact Hdu).
+    rewrite mapped_via_matrix_spec by (rfix; lia).
+    transitivity (sumR (map (fun s0 => sumR (map (fun p => E e s0 p * nth p rs 0 * Cop c i s0) (seq 0 (length rs)))) (seq 0 n))).
+    + apply sumR_map_ext. intros s0 Hs0. apply in_seq in Hs0.
+      rewrite mapped_via_unique_spec by (rewrite ?Hrs, ?Hdu; auto; lia). now rewrite sumR_map_mul_l.
+    + rewrite (sumR_swap (fun s0 p => E e s0 p * nth p rs 0 * Cop c i s0)). apply sumR_map_ext. intros p Hp. apply in_seq in Hp.
+      rewrite (convolve_matrix_is_Cop c M n i p) by (auto; lia). rewrite <- sumR_map_mul_l.
+      apply sumR_map_ext. intros s0 Hs0. apply in_seq in Hs0. rewrite Hrep by lia. ring.
+Qed.
+(* a function list's term: the two classes write the same matrix-vector product differently *)
+Lemma mapped_func_term (B : @mat ROps) n P (rs : list R) : shape n P B -> length rs = P ->
+  map (fun row => @sumT ROps (map (fun p => mul ROps (fst p) (snd p)) (combine rs row))) B = @mapped_via_matrix ROps B rs.
+Proof.
+  intros [HL HR] Hrs. apply (P3.nth_ext_len _ _ 0).
+  - now rewrite map_length, mapped_via_matrix_length.
+  - intros i Hi. rewrite map_length in Hi.
+    rewrite (P3.nth_map_lt _ _ _ []) by exact Hi. rewrite mapped_via_matrix_spec by exact Hi. rewrite sumT_sumR. rfix.
+    rewrite (combine_nth_map rs (@nth (list R) i B []) 0 0 P) by (auto; apply HR; lia). rewrite map_map, Hrs.
+    apply sumR_map_ext. intros j _. cbn [fst snd]. ropen. rewrite mget_R. apply Rmult_comm.
+Qed.
+
+Section FullMapped.
+  Variables (m : mask) (K : RK) (c : @convolver ROps).
+  Hypothesis Hrect : rectb m = true.
+  Hypothesis Hc : @convolver_init ROps m K = Ok c.
+  Notation n := (length (unmasked m)).
+  (* InversionImagingWTilde.mapped_reconstructed_data = InversionImagingMapping.mapped_reconstructed_data (as lists), for every
+     ordered list of mappers and function lists and every reconstruction vector of the right length *)
+  Theorem mapped_wt_eq_mapped_mapping objs (r : list R) :
+    (forall o, In o objs -> wf_obj c n o) -> length r = tp objs ->
+    @mapped_wt ROps c objs n r = @mapped_mapping ROps c objs n r.
+  Proof.
+    intros Hwf Hr. unfold mapped_wt, mapped_mapping. f_equal. apply map_ext_in. intros [o rs] Hin.
+    destruct (slices_lengths objs r o rs Hr Hin) as [Ho Hl]. pose proof (Hwf o Ho) as W. cbn [fst snd].
+    destruct o as [e M P reg|M ov P reg]; cbn [params] in Hl.
+    - cbn [opmat]. apply (mapped_mapper_term c n e M P reg rs); auto. now apply (init_frames_ok m K c).
+    - destruct W as (_ & Hsh & _). cbn [params] in Hsh. now apply (mapped_func_term _ n P).
+  Qed.
+End FullMapped.
